@@ -44,6 +44,10 @@ import (
 	corev1 "k8s.io/api/core/v1"
 	"k8s.io/apimachinery/pkg/api/resource"
 	metav1 "k8s.io/apimachinery/pkg/apis/meta/v1"
+	"k8s.io/apimachinery/pkg/runtime"
+	"k8s.io/apimachinery/pkg/runtime/serializer"
+	clientgoscheme "k8s.io/client-go/kubernetes/scheme"
+	k8stesting "k8s.io/client-go/testing"
 	"k8s.io/klog/v2"
 	"sigs.k8s.io/controller-runtime/pkg/client"
 	"sigs.k8s.io/controller-runtime/pkg/client/fake"
@@ -268,12 +272,19 @@ type c15World struct {
 	log              func(format string, a ...any) // nil = silent
 }
 
+// c15PodIndexClient builds the fake API server the way the package's tests do (controller-runtime
+// fake client with the pod index "label.quotaName"), on a private scheme and with client-go's plain
+// object tracker: the default field-managed tracker rebuilds a REST mapper on every Create (~4 ms),
+// which would dominate the run; reads (List with field selector / namespace) are the same code.
 func c15PodIndexClient() client.Client {
-	cl := fake.NewClientBuilder().WithIndex(&corev1.Pod{}, "label.quotaName", func(object client.Object) []string {
-		return []string{object.(*corev1.Pod).Labels[extension.LabelQuotaName]}
-	}).Build()
-	_ = v1alpha1.AddToScheme(cl.Scheme())
-	return cl
+	sch := runtime.NewScheme()
+	_ = clientgoscheme.AddToScheme(sch)
+	_ = v1alpha1.AddToScheme(sch)
+	return fake.NewClientBuilder().WithScheme(sch).
+		WithObjectTracker(k8stesting.NewObjectTracker(sch, serializer.NewCodecFactory(sch).UniversalDecoder())).
+		WithIndex(&corev1.Pod{}, "label.quotaName", func(object client.Object) []string {
+			return []string{object.(*corev1.Pod).Labels[extension.LabelQuotaName]}
+		}).Build()
 }
 
 func c15NewWorld(cl client.Client, pods map[string]string, stats map[string]int) *c15World {
@@ -358,7 +369,7 @@ func c15Reason(err error) string {
 		{"parent not exist", "fill_parent_missing"},
 		{"already exist", "duplicate_create"},
 		{"is already bound to quota", "namespace_bound"},
-		{"min ", "self_min_gt_max"},
+		{" > max ", "self_min_gt_max"},
 		{"included in min, which is not included in max", "self_min_key_not_in_max"},
 		{"isParent is forbidden to modify as false", "isparent_false_with_children"},
 		{"isParent is forbidden to modify as true", "isparent_true_with_pods"},
@@ -694,9 +705,9 @@ func (w *c15World) recordedEqualsDerived(last c15Req) *c15Viol {
 	return nil
 }
 
-// shape is the abstract state recorded as "distinct": for every quota (ordered by depth, then
-// data) its depth, parent-group flag, number of children, whether it binds namespaces, and the
-// key sets of max/min. Names are abstracted away.
+// shape is the abstract state recorded as "distinct": the multiset over quotas of (depth,
+// parent-group flag, number of children, number of min keys), the number of namespace bindings, the
+// number of distinct max key sets and of distinct tree ids. Names and amounts are abstracted away.
 func (w *c15World) shape() string {
 	names := w.names()
 	infos := map[string]c15Info{}
@@ -708,6 +719,8 @@ func (w *c15World) shape() string {
 		nkids[infos[n].parent]++
 	}
 	var parts []string
+	bound := 0
+	keysets, trees := map[string]bool{}, map[string]bool{}
 	for _, n := range names {
 		d, cur := 0, n
 		for infos[cur].parent != c15Root && d <= len(names) {
@@ -715,10 +728,13 @@ func (w *c15World) shape() string {
 			d++
 		}
 		in := infos[n]
-		parts = append(parts, fmt.Sprintf("d%d/p%v/k%d/n%d/t%s/M%s/m%s", d, in.isParent, nkids[n], len(in.nss), in.tree, c15RLStr(in.max), c15RLStr(in.min)))
+		parts = append(parts, fmt.Sprintf("d%d/p%v/k%d/m%d", d, in.isParent, nkids[n], len(in.min)))
+		bound += len(in.nss)
+		keysets[fmt.Sprint(c15KeysOf(in.max))] = true
+		trees[in.tree] = true
 	}
 	sort.Strings(parts)
-	return strings.Join(parts, " ")
+	return fmt.Sprintf("%s|ns%d|keysets%d|trees%d", strings.Join(parts, " "), bound, len(keysets), len(trees))
 }
 
 func (w *c15World) depth() int {
@@ -1164,7 +1180,7 @@ func (w *c15World) c15Mutate(r *kit.Rand, s c15Spec) (c15Spec, string) {
 func TestVerifC15Sampled(t *testing.T) {
 	defer c15Gates(t)()
 	cl := c15PodIndexClient()
-	kit.Run(t, kit.Config{Property: "C15", Unit: "sampled", Quick: 6000, Thorough: 200000,
+	kit.Run(t, kit.Config{Property: "C15", Unit: "sampled", Quick: 25000, Thorough: 600000,
 		Rule: "sampled: histories of 10-40 create/update/delete requests (interleaved with pod creations through ValidateAddPod and pod deletions) on one real quotaTopology over 4 names, parent in names+{root, absent label, missing}, isParent {true,false,absent}, tree {none,t1,t2}, namespaces = subsets of {n1,n2,n3} up to size 2, min/max over {cpu,memory} with each key absent or in {0,1,2,4}; 60% of the objects are proposed coherently with the current tree (parent group's key set, min<=max) and then perturbed, the rest uniformly; updates change 1-2 dimensions of the stored object (parent changes may target the quota itself or its descendants); oracle after every request; distinct = (op, outcome, tree shape incl. key sets) ; non-trivial = case with accepted and rejected requests, a tree of depth >= 2 and an accepted parent change",
 	}, func(c *kit.Case) {
 		r := c.R
@@ -1258,6 +1274,20 @@ func TestVerifC15Sampled(t *testing.T) {
 				req = c15Req{op: "create", spec: s}
 			case 1:
 				name := kit.Pick(r, existing)
+				if r.Pct(30) { // prefer a quota that has children: its min/keys/flag/parent are constrained from below
+					var withKids []string
+					for _, n := range existing {
+						for _, m := range existing {
+							if m != n && c15Derive(w.shadow[m]).parent == n {
+								withKids = append(withKids, n)
+								break
+							}
+						}
+					}
+					if len(withKids) > 0 {
+						name = kit.Pick(r, withKids)
+					}
+				}
 				var s c15Spec
 				switch r.Weighted(70, 15, 15) {
 				case 0:
